@@ -97,13 +97,6 @@ Proof.
 Qed.
 
 (* the well-formedness test of [agree] is the hypothesis of the theorems *)
-Lemma nodupb_sound : forall l, nodupb l = true -> NoDup l.
-Proof.
-  induction l as [|x l IH]; cbn; intro H; [constructor|].
-  apply andb_true_iff in H as [H1 H2]. constructor; [|apply IH, H2].
-  apply memb_false_not_In, negb_true_iff, H1.
-Qed.
-
 Lemma wf_config_b_sound : forall c, wf_config_b c = true -> wf_config c.
 Proof.
   intros [c1|c2] H; cbn in *.
